@@ -192,8 +192,21 @@ fn one(id: u64, v: &Value, bash: &Path) -> Value {
         for o in t["ops"].as_array().unwrap() {
             if o["op"] == json!("cfgenv") { config.environment.insert(o["a"].as_str().unwrap().to_string(), value_of(o["c"].as_str().unwrap()).to_string()); }
         }
-        let expr = if detached { ops.join("\n") } else { format!("{}\necho '@@@ {}'\n{}", ops.join("\n"), k + 1, PROBE) };
+        // the output of a detached test case is not captured: its probe goes to a file (redirected with `exec`, so that the
+        // expression is still read command by command), which is read after the run
+        let det_q = ansi_c_quote(&root.path().join(format!("det_{}.out", k + 1)).to_string_lossy());
+        let expr = if detached { format!("exec >| {}.tmp 2>/dev/null\n{}\necho '@@@ {}'\n{}\nmv {}.tmp {}", det_q, ops.join("\n"), k + 1, PROBE, det_q, det_q) }
+                   else { format!("{}\necho '@@@ {}'\n{}", ops.join("\n"), k + 1, PROBE) };
         tcs.push(TestCase { title: format!("t{}", k + 1), shell_expression: expr, expectations: vec![], exit_code: None, line_number: k + 1, config });
+    }
+    // detached test cases run in the background while the executor goes on; when it is done it removes the state directory.
+    // A sentinel test case at the end keeps the executor alive until every detached test case has written its probe file
+    // (otherwise a detached LAST test case races with the clean-up and may find no state to restore)
+    let det_files: Vec<String> = hist.iter().enumerate().filter(|(_, t)| t["detached"] == json!(true))
+        .map(|(k, _)| ansi_c_quote(&root.path().join(format!("det_{}.out", k + 1)).to_string_lossy())).collect();
+    if !det_files.is_empty() {
+        let expr = format!("for __f in {}; do for __i in $(seq 1 100); do [ -e \"$__f\" ] && break; sleep 0.1; done; done", det_files.join(" "));
+        tcs.push(TestCase { title: "sentinel".into(), shell_expression: expr, expectations: vec![], exit_code: None, line_number: n + 1, config: TestCaseConfig::default_markdown() });
     }
     // the single-script executor takes ONE configuration: the configured variables of the first test case are the
     // document's environment, given to every test case (as the test command does with document defaults)
@@ -211,9 +224,16 @@ fn one(id: u64, v: &Value, bash: &Path) -> Value {
                               else { StatefulExecutor::new(BashRunner::stateful_generator(bash)).execute_all(&refs, &ctx) });
     match executed {
         Ok(Ok(outputs)) => {
-            for (k, o) in outputs.iter().enumerate() {
+            for (k, o) in outputs.iter().enumerate().take(n) {
                 if hist[k]["detached"] == json!(true) || o.exit_code == ExitStatus::Detached {
-                    obs.push(json!({"detached": true}));
+                    // what the detached test case saw and did: its probe file (it runs in the background: wait for it)
+                    let f = root.path().join(format!("det_{}.out", k + 1));
+                    let mut tries = 0;
+                    while !f.exists() && tries < 100 { std::thread::sleep(Duration::from_millis(100)); tries += 1; }
+                    match std::fs::read(&f).ok().and_then(|b| split_marked(&String::from_utf8_lossy(&b), n).get(k).cloned().flatten()) {
+                        Some(section) => { let mut p = parse_probe(&section); p["detached"] = json!(true); obs.push(p) }
+                        None => obs.push(json!({"detached": true})),      // not observed (not judged; counted)
+                    }
                 } else {
                     let text = String::from_utf8_lossy(&o.stdout.to_bytes()).to_string();
                     match split_marked(&text, n).get(k).cloned().flatten() {
